@@ -154,8 +154,9 @@ func mkHandler(run **chainRun, h int, script [][]any) rux.HandlerFunc {
 		if !r.entered {
 			// the first handler of a request: whatever earlier requests did (errors, aborts, panics), the context is pristine
 			r.entered = true
-			if len(c.Errors) != 0 || c.FirstError() != nil || c.Length() != -1 {
-				r.log = append(r.log, []any{"residue", h, fmt.Sprintf("errors=%d length=%d", len(c.Errors), c.Length())})
+			_, recovered := c.Get(rux.CTXRecoverResult)
+			if len(c.Errors) != 0 || c.FirstError() != nil || c.Length() != -1 || recovered {
+				r.log = append(r.log, []any{"residue", h, fmt.Sprintf("errors=%d length=%d recovered-value-of-an-earlier-panic=%v", len(c.Errors), c.Length(), recovered)})
 			}
 		}
 		for _, op := range script {
@@ -449,7 +450,7 @@ func chainRunOnce(s *Summary, c *chainCase, sp chainSplit, outerPrefix string, c
 	func() {
 		defer func() { regPanic = recover() }()
 		opts := []func(*rux.Router){}
-		if c.Kind == "notallowed" || c.Kind == "na-default" || c.Kind == "default" || fbSub {
+		if c.Kind == "notallowed" || c.Kind == "na-default" || c.Kind == "na-builtin" || c.Kind == "default" || fbSub {
 			opts = append(opts, rux.HandleMethodNotAllowed)
 		}
 		if cachedDyn {
@@ -542,6 +543,8 @@ func chainRunOnce(s *Summary, c *chainCase, sp chainSplit, outerPrefix string, c
 					r.Use(decoyMw)
 					r.Group("/sub", func() { r.GET("/decoy2", nopHandler) }, decoyMw)
 				}, inner...)
+				// Use() in the outer group AFTER the nested group has returned: still the outer group's (for what follows in it)
+				r.Use(func(cx *rux.Context) { cur.log = append(cur.log, []any{"in", -5, cx.IsAborted()}) })
 				// registered after the inner group has returned: only the outer group's middleware applies
 				r.GET("/sib", func(cx *rux.Context) { cur.log = append(cur.log, []any{"in", -3, cx.IsAborted()}) })
 			}, outer...)
@@ -608,6 +611,14 @@ func chainRunOnce(s *Summary, c *chainCase, sp chainSplit, outerPrefix string, c
 			case float64(405):
 			default:
 				method = "OPTIONS"
+			}
+		case "na-builtin", "nf-builtin":
+			// the LAST handler of the model chain is the router's built-in 405 / 404 handler (not instrumented), all others are
+			// global middleware: the built-in handler is the last handler of the chain like any other (it starts iff they let it)
+			r.Use(hs[:n-1]...)
+			r.POST("/g/h/x", nopHandler)
+			if c.Kind == "nf-builtin" {
+				path = "/missing"
 			}
 		case "na-default": // all handlers are global middleware around the DEFAULT 405 handler; a custom NotFound is installed too
 			r.Use(hs...)
@@ -709,6 +720,17 @@ func chainRunOnce(s *Summary, c *chainCase, sp chainSplit, outerPrefix string, c
 		}{{sibPrefix + "/sib", sp.gBefore + sp.gAfter + sp.outer + sp.outUse, -3}, {"/top", sp.gBefore + sp.gAfter, -4}} {
 			path, method = pr.path, "GET"
 			probe := serve()
+			late := 0
+			for _, e := range probe.log {
+				if h, ok := e[1].(int); ok && h == -5 {
+					late++
+				}
+			}
+			if late > 1 || (pr.tag != -3 && late != 0) { // (an earlier handler of /sib may stop the chain before it)
+				s.mismatch(desc("enter", fmt.Sprintf("route %s: the middleware added with Use() in the outer group after its nested group returned ran %d time(s) (it belongs to the routes that follow it in the outer group, here /sib only): %v",
+					pr.path, late, probe.log)), c)
+				return
+			}
 			for _, e := range probe.log {
 				if h, ok := e[1].(int); ok && e[0] == "in" && h > pr.allowed {
 					s.mismatch(desc("enter", fmt.Sprintf("route %s, registered after a group returned, runs handler #%d of the chain of /x (only the first %d belong to its scope): %v",
@@ -802,6 +824,21 @@ func chainRunOnce(s *Summary, c *chainCase, sp chainSplit, outerPrefix string, c
 	if c.CheckW && c.Kind != "na-default" {
 		wantU := normLog(c.Under)
 		gotU := run.rw.calls
+		if c.Kind == "na-builtin" || c.Kind == "nf-builtin" {
+			// (the text of the built-in answer is not constrained: compare the calls and the statuses, not the sizes)
+			strip := func(l [][]any) [][]any {
+				out := [][]any{}
+				for _, e := range l {
+					if e[0] == "W" {
+						out = append(out, []any{"W"})
+					} else {
+						out = append(out, e)
+					}
+				}
+				return out
+			}
+			wantU, gotU = strip(wantU), strip(gotU)
+		}
 		if !(len(gotU) == 0 && len(wantU) == 0) && !reflect.DeepEqual(gotU, wantU) {
 			s.mismatch(desc("writer", fmt.Sprintf("underlying writer received %v, spec %v", gotU, wantU)), c)
 			return
